@@ -58,7 +58,15 @@ func C12Scenario() *Scenario {
 			}
 			finalCheck = func(w *World, pokeStep int) *Violation { return c12DecoratorFinal(w, ds, pokeStep) }
 		} else {
-			cs = NewCompositeSetup(w, GenOpts{MaxWorkers: 2, MaxParents: 2, Methods: []string{"InPlace", "Recreate", "", "RollingInPlace", "RollingRecreate"}, AvoidKnown: true, Finalize: 0})
+			g := GenOpts{MaxWorkers: 2, MaxParents: 2, Methods: []string{"InPlace", "Recreate", "", "RollingInPlace", "RollingRecreate"}, AvoidKnown: true, Finalize: 0}
+			if t.Pick(5, "ssa") == 4 {
+				// server-side apply, kept clear of its two recorded findings (rolling
+				// strategies; kinds without metadata.generation)
+				g.ForceSSA = true
+				g.Methods = []string{"InPlace", "Recreate", ""}
+				g.Kinds = []*Resource{ResWidget, ResGadget}
+			}
+			cs = NewCompositeSetup(w, g)
 			sig = copySig(cs.Sig)
 			pokeAll = func(w *World) {
 				for _, p := range cs.Parents {
@@ -168,7 +176,7 @@ func C12Scenario() *Scenario {
 			return append(ops, GCOps(w)...)
 		}
 		pol := &Policy{Name: "multi-fault", Shuffle: true, HoldWatch: 100 * t.Pick(4, "hold"), EnvProb: 100, AdvanceProb: 30,
-			APIFault: 30 + 40*t.Pick(3, "apirate"), APIFaults: []string{"404", "409", "exists", "410", "422", "500", "neterr", "lost"},
+			APIFault: 30 + 40*t.Pick(3, "apirate"), APIFaults: []string{"404", "409", "exists", "410", "422", "500", "503", "504", "neterr", "lost"},
 			HookFault: 40 * t.Pick(3, "hookrate"), HookFaults: []string{"500", "429", "refused", "stall", "garbage"},
 			WatchBreak: 20 * t.Pick(3, "breakrate"), WatchGone: 300 * t.Pick(2, "gonerate"), Crash: 4 * t.Pick(2, "crashrate"),
 			FaultFilter: func(r *ReqRec) bool { return r.Sync >= 0 }}
@@ -337,7 +345,7 @@ func c12SingleFault(w *World, sig map[string]string, cs *Setup, ds *DSetup) *Vio
 			} else {
 				expect = "error"
 			}
-		case isParent(res) && freq.Verb == "update" && (kind == "500" || kind == "neterr" || kind == "lost" || kind == "422" || kind == "410"):
+		case isParent(res) && freq.Verb == "update" && (kind == "500" || kind == "503" || kind == "504" || kind == "neterr" || kind == "lost" || kind == "422" || kind == "410"):
 			expect = "error"
 		}
 	}
